@@ -84,7 +84,7 @@ var decodeCandidates = []string{
 	`"18446744073709551615"`, `"18446744073709551616"`, `"1.5"`, `"abc"`, `""`, `" 1"`, `"1 "`, `"1_000"`, `"0x10"`, `"1e3"`, `"3.14"`, `"NaN"`, `"Inf"`, `"-7"`, `"42"`,
 	`"AQI="`, `"AQI"`, `"A==="`, `"!!!!"`, `"QUJD"`, `"QUJD\n"`, `"QR=="`, `"QQ=="`,
 	`true`, `false`, `null`, `[null]`, `[]`, `[null,null]`, `{}`, `[1]`, `["a"]`, `[true]`, `{"a":1}`,
-	`"RED"`, `"GREEN"`, `"v-main:RED"`, `"bogus:RED"`, `"NOPE"`, `"GREEN "`, `"red"`, `"dark-grey"`, `"one"`, `"minus"`,
+	`"RED"`, `"GREEN"`, `"BLUE"`, `"PURPLE"`, `"v-main:RED"`, `"bogus:RED"`, `"NOPE"`, `"GREEN "`, `"red"`, `"dark-grey"`, `"one"`, `"minus"`,
 	`"id-a"`, `"v-main:id-a"`, `"id-c"`, `"v-types:ext-one"`, `"ext-one"`, `"v-main:ext-one"`, `"oc-one"`, `"v-oc:oc-two"`, `"ETHERNET"`, `"lag"`,
 	`"hello"`, `"ab"`, `"abcdefghijklmnopqrstuvwxyz"`, `"é世"`,
 }
@@ -418,14 +418,23 @@ func jsondecStream(rng *rand.Rand, n int, tier string, out string) (*Summary, er
 		rt := reflect.TypeOf(p.NewRoot()).Elem()
 		containerLeaves(rt, p.SchemaTree[rt.Name()], nil, &sites)
 		nd := 0
+		type decPair struct {
+			s leafSite
+			c string
+		}
+		var pairs []decPair
 		for _, s := range sites {
 			for _, c := range decodeCandidates {
-				if nd >= quota/2 {
-					break
-				}
-				if rng.Intn(3) != 0 && tier != "thorough" { // sample a third in quick
-					continue
-				}
+				pairs = append(pairs, decPair{s, c})
+			}
+		}
+		rng.Shuffle(len(pairs), func(i, j int) { pairs[i], pairs[j] = pairs[j], pairs[i] })
+		if tier != "thorough" && len(pairs) > quota/2 {
+			pairs = pairs[:quota/2]
+		}
+		for _, pr := range pairs {
+			{
+				s, c := pr.s, pr.c
 				var val interface{}
 				d := json.NewDecoder(strings.NewReader(c))
 				d.UseNumber()
